@@ -505,14 +505,29 @@ class Gen:
         rng = self.rng
         flavour = flavour or rng.choice(HASHABLE_STRUCT_FLAVOURS if hashable else self.opts.flavours)
         name = name or self.prog.fresh("S")
+        base = None
+        if fields is None and flavour == "dataclass" and not hashable and rng.random() < 0.25:
+            # single inheritance: a dataclass extending an earlier plain dataclass of this program (fields: base's, then own)
+            cands = [s for s in self.structs.values() if s.info["flavour"] == "dataclass" and not s.info.get("base")
+                     and all(f[2] is None for f in s.info["fields"]) and s.prog is self.prog]
+            if cands:
+                base = rng.choice(cands)
         if fields is None:
             nf = rng.randrange(1, 5)
             names = rng.sample(FIELD_NAMES, nf)
             fields = []
+            if base is not None:
+                taken = {f[0] for f in base.info["fields"]}
+                names = [n for n in names if n not in taken] or [self.prog.fresh("own")]
             for fn in names:
                 ft = self.type(depth - 1, hashable=hashable)
                 fields.append([fn, ft, None])
+            if base is not None:
+                fields = [list(f) for f in base.info["fields"]] + fields
         spec = self.prog.spec("struct", name, [f[1] for f in fields], flavour=flavour, name=name, fields=fields)
+        if base is not None:
+            spec.info["base"] = base.info["name"]
+            spec.info["own_from"] = len(base.info["fields"])
         self._emit_struct(spec)
         self.structs[name] = spec
         return spec
@@ -531,14 +546,24 @@ class Gen:
         if fl in ("dataclass", "dc_slots", "dc_frozen", "dc_kwonly", "namedtuple") and rng.random() < 0.4:
             def _dflt(f):
                 p = f[1].peel() if f[1].kind != "rec" else f[1]
+                if fl != "namedtuple" and p.kind == "coll" and p.info["cls"] is list:
+                    return True
+                if fl != "namedtuple" and p.kind == "mapping" and p.info["cls"] is dict:
+                    return True
                 return p.kind == "scalar" and p.info["name"] in ("int", "str", "bool")
             tail = len(fields)
-            while tail > 0 and _dflt(fields[tail - 1]):
+            while tail > spec.info.get("own_from", 0) and _dflt(fields[tail - 1]):  # inherited fields keep the base's (no) defaults
                 tail -= 1
             if tail < len(fields):
                 start = rng.randrange(tail, len(fields))
                 for f in fields[start:]:
-                    defaults[f[0]] = {"int": "7", "str": "'dflt'", "bool": "True"}[f[1].peel().info["name"]]
+                    p = f[1].peel()
+                    if p.kind == "coll":
+                        defaults[f[0]] = "dataclasses.field(default_factory=list)"
+                    elif p.kind == "mapping":
+                        defaults[f[0]] = "dataclasses.field(default_factory=dict)"
+                    else:
+                        defaults[f[0]] = {"int": "7", "str": "'dflt'", "bool": "True"}[p.info["name"]]
         for f in fields:
             f[2] = defaults.get(f[0])
         spec.info["required"] = [f[0] for f in fields if f[2] is None]
@@ -548,8 +573,10 @@ class Gen:
             extra = ""
             if rng.random() < 0.2 and not self.opts.hashable:
                 extra = "    CONST: typing.ClassVar[int] = 3\n"
-            body = "".join(f"    {f[0]}: {q(f)}" + (f" = {f[2]}" if f[2] is not None else "") + "\n" for f in fields)
-            self.prog.emit(f"@dataclasses.dataclass({args})\nclass {name}:\n{extra}{body}")
+            own = fields[spec.info.get("own_from", 0):]
+            body = "".join(f"    {f[0]}: {q(f)}" + (f" = {f[2]}" if f[2] is not None else "") + "\n" for f in own) or "    pass\n"
+            parent = f"({spec.info['base']})" if spec.info.get("base") else ""
+            self.prog.emit(f"@dataclasses.dataclass({args})\nclass {name}{parent}:\n{extra}{body}")
         elif fl == "namedtuple":
             body = "".join(f"    {f[0]}: {q(f)}" + (f" = {f[2]}" if f[2] is not None else "") + "\n" for f in fields)
             self.prog.emit(f"class {name}(typing.NamedTuple):\n{body}")
@@ -835,6 +862,8 @@ class ValueGen:
             return rng.choice(list(spec.t))
         if k == "coll":
             n = 0 if budget <= 0 else rng.choice([0, 1, 1, 2, 2, 3, self.max_len])
+            if budget == self.budget and spec.kids[0].peel().kind in ("scalar", "enum", "literal") and rng.random() < 0.04:
+                n = 1000  # a large top-level container of leaves
             items = [self.value(spec.kids[0], budget - 1) for _ in range(n)]
             cls = spec.info["cls"]
             return cls(items)
